@@ -786,6 +786,94 @@ void h_inc(void) {
 #endif
 }
 
+/* ---- operator++(int): returns the old position, advances like operator++ ------------------------------------------------------ */
+void h_postinc(void) {
+  build(); exp_init(); snapshot();
+  struct iterator it; build_iterator(&it); struct iterator pre = it; unsigned b = in_ib;
+  mptr exp_cur; mptr* exp_prev = 0; guard_t exp_save; unsigned exp_bucket = b;
+  _Bool fast = (in_icur == 0 && !in_mark[in_ic]);
+  if (fast) {
+    if (in_ic + 1 < hi(b)) { exp_cur = W(in_ic + 1); exp_prev = &pool[in_ic].next; exp_save = W(in_ic); }
+    else { exp_cur = first_of_later_bucket(b, &exp_bucket); exp_save = 0; }
+  } else expect_slow_path(&it, b, &exp_cur, &exp_prev, &exp_save, &exp_bucket, &pre);
+
+  struct iterator old = it_postinc(&it);
+
+  /* the returned iterator is the complete old position: in particular it keeps the guard (save) for the node its prev points into */
+  XV_OBL("hmm.iter.postinc.copy", old.map == pre.map && old.bucket == pre.bucket && old.info.prev == pre.info.prev && old.info.cur == pre.info.cur && old.info.save == pre.info.save);
+  XV_OBL("hmm.iter.inc.no_skip", no_skip(b, &it));
+  XV_OBL("hmm.iter.inc.next_live", it.info.cur == exp_cur && it.info.cur != pre.info.cur);
+  if (exp_cur != 0) XV_OBL("hmm.iter.inc.next_live", it.bucket == exp_bucket && it.info.save == exp_save && it.info.prev == (exp_prev ? exp_prev : &M.buckets[exp_bucket]));
+  XV_OBL("hmm.iter.inc.next_live", it_consistent(&it) && it.map == &M);
+  XV_OBL("hmm.iter.inc.frame", post_lists_ok() && post_payload_ok() && post_retired_ok() && !g_alloc);
+  if (fast) XV_CANARY("postinc.fast"); else XV_CANARY("postinc.slow");
+}
+
+/* ---- special member functions, reset, operator== ---------------------------------------------------------------------------------- */
+static struct iterator* sp_copy_assign(struct iterator* d, const struct iterator* s) {
+#ifdef XV_DEFAULTED_it_copy_assign
+  *d = *s; return d;
+#else
+  return it_copy_assign(d, s);
+#endif
+}
+static struct iterator* sp_move_assign(struct iterator* d, struct iterator* s) {
+#ifdef XV_DEFAULTED_it_move_assign
+  if (d != s) { *d = *s; s->info.cur = 0; s->info.save = 0; } return d;      /* member-wise move: guard_ptr's move assignment empties the source */
+#else
+  return it_move_assign(d, s);
+#endif
+}
+static void sp_copy_ctor(struct iterator* d, const struct iterator* s) {
+#ifdef XV_DEFAULTED_it_copy_ctor
+  *d = *s;
+#else
+  *d = xv_it_blank(); it_copy_ctor(d, s);
+#endif
+}
+static void sp_move_ctor(struct iterator* d, struct iterator* s) {
+#ifdef XV_DEFAULTED_it_move_ctor
+  *d = *s; s->info.cur = 0; s->info.save = 0;
+#else
+  *d = xv_it_blank(); it_move_ctor(d, s);
+#endif
+}
+static _Bool same_pos(const struct iterator* a, const struct iterator* b) {
+  return a->map == b->map && a->bucket == b->bucket && a->info.prev == b->info.prev && a->info.cur == b->info.cur && a->info.save == b->info.save; }
+void h_special(void) {
+  build(); exp_init(); snapshot();
+  struct iterator a; build_iterator(&a); struct iterator a0 = a;
+  /* a second iterator at any other consistent position (begin of some bucket, or end) */
+  struct iterator t = nondet_bool() ? hmm_begin(&M) : hmm_end(&M);
+  struct iterator t0 = t;
+  XV_OBL("hmm.iter.reset.releases", it_eq(&a, &t) == (a.info.cur == t.info.cur) && it_ne(&a, &t) == (a.info.cur != t.info.cur));
+  unsigned which = nondet_uint(); XV_ASSUME(which < 4);
+  if (which == 0) {
+    struct iterator* r = sp_copy_assign(&t, &a);
+    XV_OBL("hmm.iter.special.memberwise", r == &t && same_pos(&t, &a0) && same_pos(&a, &a0));
+    r = sp_copy_assign(&t, &t);
+    XV_OBL("hmm.iter.special.memberwise", r == &t && same_pos(&t, &a0));
+    XV_CANARY("special.copy_assign");
+  } else if (which == 1) {
+    struct iterator* r = sp_move_assign(&t, &a);
+    XV_OBL("hmm.iter.special.memberwise", r == &t && same_pos(&t, &a0));
+    XV_OBL("hmm.iter.special.memberwise", (a.info.cur == 0 || a.info.cur == a0.info.cur) && (a.info.save == 0 || a.info.save == a0.info.save));   /* the source keeps nothing it did not have */
+    XV_CANARY("special.move_assign");
+  } else if (which == 2) {
+    struct iterator c; sp_copy_ctor(&c, &a);
+    XV_OBL("hmm.iter.special.memberwise", same_pos(&c, &a0) && same_pos(&a, &a0));
+    XV_CANARY("special.copy_ctor");
+  } else {
+    struct iterator c; sp_move_ctor(&c, &a);
+    XV_OBL("hmm.iter.special.memberwise", same_pos(&c, &a0) && (a.info.cur == 0 || a.info.cur == a0.info.cur) && (a.info.save == 0 || a.info.save == a0.info.save));
+    XV_CANARY("special.move_ctor");
+  }
+  it_reset(&t);
+  { struct iterator e = hmm_end(&M);
+    XV_OBL("hmm.iter.reset.releases", t.info.cur == 0 && t.info.save == 0 && t.info.prev == 0 && t.bucket == e.bucket && t.map == &M && it_eq(&t, &e)); }
+  XV_OBL("hmm.iter.special.memberwise", post_lists_ok() && post_payload_ok() && post_retired_ok() && !g_alloc);      /* none of this touches the map */
+}
+
 /* ---- erase(iterator) ---------------------------------------------------------------------------------------------------------- */
 void h_erase_it(void) {
   build(); exp_init(); snapshot();
